@@ -673,9 +673,11 @@ func mulMono(a, b string) string {
 //
 // The three places where Conv computes an extent or coordinate from per-axis quantities are compared,
 // as polynomials over kind-labelled atoms (list[index kind]), with the ONNX formulas:
-//   output extent   out[2+i]  = (X[2+i] - K[i] + pads[i] + pads[i+n]) / strides[i] + 1      (floor)
-//   dilated extent  new[2+i]  = K[2+i]*d[i] - d[i] + 1                                       (= k + (k-1)(d-1))
-//   dilated coord   new[2+i]  = old[2+i] * d[i]
+//
+//	output extent   out[2+i]  = (X[2+i] - K[i] + pads[i] + pads[i+n]) / strides[i] + 1      (floor)
+//	dilated extent  new[2+i]  = K[2+i]*d[i] - d[i] + 1                                       (= k + (k-1)(d-1))
+//	dilated coord   new[2+i]  = old[2+i] * d[i]
+//
 // The comparison is modulo + - * algebra; integer division is opaque, so floor vs ceil spellings differ.
 func ruleConvFormulas(c *Ctx, prop string) {
 	oi := c.opByName("Conv")
